@@ -91,10 +91,11 @@ def check_function(ck, prop, f):
         if not cfg.live(node):
             continue
         for e in cfg.node_exprs(node):
+            bound_here = {y.target.id for y in [e] + list(walk_local(e, into_lambda=False)) if isinstance(y, ast.NamedExpr) and isinstance(y.target, ast.Name)}
             for x in [e] + list(walk_local(e, into_lambda=False)):
                 if not (isinstance(x, ast.Name) and isinstance(x.ctx, ast.Load)):
                     continue
-                if x.id in scoped or x.id in params:
+                if x.id in scoped or x.id in params or x.id in bound_here:
                     continue
                 if x.id in nested_defs:
                     continue
